@@ -36,6 +36,7 @@ from mc.hist import scramble, observe
 
 import datetime
 import itertools
+import sys
 
 from okdmr.dmrlib.hytera.pdu.hdap import HDAP
 from okdmr.dmrlib.hytera.pdu.hrnp import HRNP, HRNPOpcodes
@@ -1489,6 +1490,57 @@ def run(only=None):
             s.merge(acc)
         s.done()
         rep.log(f"hstrp_option_space: {s.n} cases, {len(s.viol)} violation signatures, {s.wall}s")
+
+    if not only or "parse_in_a_process_that_imported_only_the_parser" in only:
+        # first use in a process: a receiver imports the parser (HDAP / HRNP / HSTRP, as the datagram handlers do), not the service
+        # classes; the bytes are produced here and parsed + re-serialised in brand-new interpreters that import one module each
+        import subprocess as _sp
+        import json as _json
+        s = rep.sub("parse_in_a_process_that_imported_only_the_parser",
+                    "every base PDU of every opcode, bare / in HRNP / in HSTRP, parsed and re-serialised in a new interpreter that has imported "
+                    "nothing but okdmr.dmrlib.hytera.pdu.hdap resp. .hrnp resp. .hstrp: same bytes back as in this process")
+        samples = {"hdap": [], "hrnp": [], "hstrp": []}
+        for kname, fv in representatives(kinds):
+            kind = KINDS[kname]
+            try:
+                p_ = kind.build(fv)
+                inner = p_.as_bytes()
+                samples["hdap"].append((kname, inner.hex()))
+                samples["hrnp"].append((kname, HRNP(opcode=HRNPOpcodes.DATA, data=p_, source=0x20, destination=0x10, block_number=0, packet_number=1, version=4).as_bytes().hex()))
+                o_ = HSTRPOptions()
+                samples["hstrp"].append((kname, HSTRP(pkt_type=HSTRPPacketType(have_options=False), sn=1, options=o_, payload=p_, version=0).as_bytes().hex()))
+            except Exception:  # noqa: BLE001  (reported by the field sub-checks)
+                continue
+        code = (
+            "import sys, json\n"
+            "sys.path.insert(0, %r)\n"
+            "import logging; logging.disable(logging.CRITICAL)\n"
+            "from okdmr.dmrlib.hytera.pdu.%s import %s as P\n"
+            "out = []\n"
+            "for name, hx in json.loads(sys.stdin.read()):\n"
+            "    try:\n"
+            "        out.append([name, P.from_bytes(bytes.fromhex(hx)).as_bytes().hex()])\n"
+            "    except Exception as e:\n"
+            "        out.append([name, 'raises:' + type(e).__name__ + ':' + str(e)[:80]])\n"
+            "print('RESULT:' + json.dumps(out))\n"
+        )
+        for mod, clsname in (("hdap", "HDAP"), ("hrnp", "HRNP"), ("hstrp", "HSTRP")):
+            r = _sp.run([sys.executable] + (["-O"] if sys.flags.optimize else []) + ["-B", "-c", code % (env.REPO, mod, clsname)],
+                        input=_json.dumps(samples[mod]), capture_output=True, text=True)
+            got = None
+            for line in r.stdout.splitlines():
+                if line.startswith("RESULT:"):
+                    got = _json.loads(line[7:])
+            if got is None:
+                rep.internal_error(f"new interpreter for {mod} gave no result: {r.stderr[-300:]}")
+                continue
+            for (kname, hx), (_, back) in zip(samples[mod], got):
+                case = {"kind": kname, "bytes": hx, "only_module_imported": f"okdmr.dmrlib.hytera.pdu.{mod}"}
+                if back != hx:
+                    s.violation(f"parse_differs_in_a_process_that_imported_only_{mod}", {**case, "there": back},
+                                "bytes this process parses and re-serialises unchanged come back different (or raise) in a new interpreter that imported only the parser module")
+                s.case(nontrivial=True, calls=2, outcome=(mod, KINDS[kname].family), sample=case if len(s.samples) < 1 else None)
+        s.done()
 
     rep.bounds = {
         "opcodes": "RRS 5, LP 2, TMP 8, RCP 18 (all with both get_payload and from_bytes branches)",
